@@ -178,6 +178,7 @@ def run_clip(run, timeout):
   h = jh.Harness(run, 'clip', timeout)
   tree = {'a': sj.symarr('t_a', (2,)), 'b': sj.symarr('t_b', ())}
   c = sj.symarr('c', ())
+  sj.declare_sign(c[()], 'pos')       # clip bound > 0 (also asserted as an assumption)
   sym = (tree, c)
   ctx = sj.Ctx()
   out, pcs, _, _ = sj.run_symbolic(lambda t, cc: tree_util.tree_clip_by_global_norm(t, cc), jh.abstract_of(sym), sym, ctx=ctx)
